@@ -67,7 +67,7 @@ PROPERTIES = {
     'C02': dict(units=WRAPPERS + ['keys'], extra=[_reg('C02')], explanation='the key is computed exactly once per call, before the lookup (structural); wrapper contracts: on every fixture expansion the cache is read and written under exactly key_str(d(p1) + "|" + d(p2) ...) with every parameter (and the receiver) present in order, d = Debug rendering (keys.rs blanket impl verified); lemmas: such keys are injective on argument tuples when each rendering is injective and "|"-safe',
                 assumptions=['std Debug of the built-in key types is injective and self-delimiting w.r.t. "|" (axioms ax_builtin_debug / ax_builtin_types); user CacheableKey impls and distinct NaN payloads are not covered'],
                 trusted=['R9 rewrites: expanded format!("{:?}", x) -> debug_fmt(&x); Vec<String>::join(sep) -> vec_join']),
-    'C03': dict(units=ENGINES + WRAPPERS + ['monotone', 'wrappers_async_await', 'wrappers_global_await'], explanation='engine contracts (a lookup never removes an unexpired entry; an unbounded store keeps everything) and wrapper contracts on the real macro expansions: a hit is served without running the body, a miss runs it exactly once and stores the result (effect log). Concurrent sentence (global and async engines, configuration without limit / ttl / max_memory): unit monotone proves on the real get / insert code, under the interference projection, that every store critical section leaves every resident key resident (rely/guarantee: ghost key set threaded through the acquisitions), that a lookup returning None did not see the key at its read section, and that the key is resident when insert returns; units wrappers_async_await / wrappers_global_await: with arbitrary interference while the body runs (no lock held) the body runs at most once per call, a hit is served without it, and the call then stores its own result under its own key',
+    'C03': dict(units=ENGINES + WRAPPERS + ['monotone', 'wrappers_async_await', 'wrappers_global_await', 'registry'], explanation='registry: a registration (register / register_callback / register_invalidation_callback) invokes no callback of any cache (effect log unchanged); engine contracts (a lookup never removes an unexpired entry; an unbounded store keeps everything) and wrapper contracts on the real macro expansions: a hit is served without running the body, a miss runs it exactly once and stores the result (effect log). Concurrent sentence (global and async engines, configuration without limit / ttl / max_memory): unit monotone proves on the real get / insert code, under the interference projection, that every store critical section leaves every resident key resident (rely/guarantee: ghost key set threaded through the acquisitions), that a lookup returning None did not see the key at its read section, and that the key is resident when insert returns; units wrappers_async_await / wrappers_global_await: with arbitrary interference while the body runs (no lock held) the body runs at most once per call, a hit is served without it, and the call then stores its own result under its own key',
                 assumptions=['concurrent sentence: the identification of a real execution with a trace of released store states, each produced by one critical section of a verified operation, is informal; the trace lemma (resident once => resident forever) is proved', 'fixture bodies are deterministic functions of their arguments']),
     'C09': dict(units=ENGINES + WRAPPERS, explanation='insert_result* leave the cache untouched for Err and store Ok; wrapper contracts on the expansions of Result / std::result::Result fixtures (sync and async, with and without max_memory): Err is never stored, Ok is'),
     'C10': dict(units=ENGINES + WRAPPERS, explanation='engine contracts the wrappers rest on (representation invariant preserved by every operation, last store wins) and wrapper contracts on the expansions of cache_if fixtures: the predicate is consulted exactly once per body run with that key (effect log) and its verdict on (key, result) decides the store; sync Result: only Ok',
